@@ -4,3 +4,6 @@ import P2P.Props.C14
 #print axioms P2P.Props.C14.near_complete_static
 #print axioms P2P.Props.C14.inv_after_any_history
 #print axioms P2P.Props.C14.near_excludes_self
+#print axioms P2P.Props.C14.near_exact
+#print axioms P2P.Props.C14.near_nodup
+#print axioms P2P.Props.C14.near_in_range
